@@ -15,6 +15,44 @@ CLAIMED = {
              "equal to the model; the whole table is also enumerated against the implementation.",
              technique="Coq proof over Q; source-to-Gallina translator re-proved each run; exhaustive table correspondence",
              design="5 C06"),
+ 'C01': dict(text="Theorems (Coq, all contents, amounts, units, prefixes, plate sizes, regions): every substance is conserved by "
+             "container->container, container->n wells, n wells->container and plate->plate transfers (one-to-many, many-to-one, "
+             "element-wise; two plates or disjoint regions of one plate); wells outside the addressed regions are identical; "
+             "overlapping regions are refused. Model tied to the code by correspondence on random histories (implementation vs "
+             "vm_compute of the model) with a per-substance conservation oracle on the implementation.",
+             technique="Coq proof (induction over contents and well lists); differential correspondence on generated histories",
+             design="5 C01"),
+ 'C02': dict(text="Theorems: a successful transfer removes the same fraction r of every substance and adds exactly that to the "
+             "destination; the source loses and the destination gains exactly q measured in the unit of q (volume, mass, non-enzyme "
+             "moles, activity), any prefix; a container dispensing into n wells loses n*q, one collecting from n wells gains n*q; "
+             "each addressed well receives a stand-alone transfer; chains of withdrawals never drift from the original composition.",
+             technique="Coq proof over Q (field/nra, induction over well lists and chains); differential correspondence",
+             design="5 C02"),
+ 'C03': dict(text="Theorems: the invariant (no negative amount, no negative volume, volume <= capacity, cached volume = sum of contents) "
+             "holds for every value produced by every history of public operations (induction over operation lists, all ten DSL "
+             "operations incl. create_solution(_from), dilute, plate transfers); over-draw in any unit, negative quantities, capacity "
+             "overflow and fill below the current quantity are refused with ValueError; exact-capacity fills are accepted. "
+             "Acceptance of every in-range transfer is checked by correspondence and the independent feasibility oracle (partial).",
+             technique="Coq proof (invariant by induction over histories); differential correspondence with on/inside/outside boundary streams",
+             design="5 C03"),
+ 'C07': dict(text="Theorems: remove / fill_to / transfers in and out of a region act on each addressed well as the stand-alone container "
+             "operation (for distinct addresses) and leave every other well identical (Leibniz equality of the well); pairing is "
+             "one-to-many, many-to-one or element-wise for equal shapes, every other shape combination is rejected. Correspondence on "
+             "histories over plates up to 4x5 with rect/stepped/list regions; oracle recomputes every addressed well with stand-alone "
+             "Container operations. Recipe-level fill_to on a slice is a recorded known finding (D13, see C08).",
+             technique="Coq proof (fold over addressed wells: frame, well-wise, dispatch); differential correspondence + per-well recomputation",
+             design="5 C07"),
+ 'C10': dict(text="Theorems: after any history the cached volume equals the sum of the volumes of the contents (every container and well); "
+             "get_volume and get_concentration equal their definitions from contents (any prefix, numerator/denominator base units); "
+             "volumes are additive over transfers. Plate observers (get_volumes, get_moles, get_substances) are checked against "
+             "definitions by the oracle on the implementation.",
+             technique="Coq proof (history invariant + observer definitions); differential correspondence; observer recomputation with exact fractions",
+             design="5 C10"),
+ 'C17': dict(text="Theorems: remove leaves no selected substance (substance or class), keeps every other amount unchanged, keeps name and "
+             "capacity, and reduces the volume by exactly the volume of what was removed; on plates/slices it is Container.remove on each "
+             "addressed well and the identity elsewhere. The recipe clause (discarded amounts in tracking) is decided under C09.",
+             technique="Coq proof (filter lemmas over contents, fold over wells); differential correspondence",
+             design="5 C17"),
 }
 checks = []
 for p in props:
@@ -36,7 +74,7 @@ m = {"version": 1, "setup_cmd": "./setup.sh",
                  {"name": "correspondence", "path": "harness/", "serves_properties": sorted(CLAIMED), "kind_free_text": "seeded generators; the same programs run on the implementation and (vm_compute) on the model; property oracle on the implementation"}],
      "checks": checks,
      "notes": "See DESIGN.md. ./check Cxx --tier quick|thorough; fixes to /repo are 'fix:' commits listed in KNOWN_FINDINGS.txt.",
-     "not_applicable": [{"property_id": p['id'], "reason": "check not built yet (work in progress; see DESIGN.md section 9 build order)"}
+     "not_applicable": [{"property_id": p['id'], "reason": "check not built yet at this commit (work in progress; see DESIGN.md section 9 build order)"}
                         for p in props if p['id'] not in CLAIMED]}
 json.dump(m, open(os.path.join(V, 'MANIFEST.json'), 'w'), indent=1)
 print(len(checks), 'checks claimed')
